@@ -29,6 +29,14 @@ def mc_flag_off(flag, names, invs, extra=None, shard=(1, 0)):
     return sorted(r["violated"]), r["states"]
 
 
+def _res(module, consts, fn):
+    r = tlcrun.validate_traces(module, consts, [fn])[0]
+    if r["result"] is None:
+        print("trace validation gave no result for %s:\n%s" % (fn, r["out"][-1200:]))
+        return dict(drift=[], viol=[])
+    return r["result"]
+
+
 def main():
     rows = []
     ok = True
@@ -87,7 +95,7 @@ def main():
                     break
         fa = os.path.join(d, "a.ndjson")
         open(fa, "w").write("\n".join(lines) + "\n")
-        res = tlcrun.validate_traces("TraceMachine", dict(seqcheck.FLAGS, QueueLimit=1000), [fa])[0]["result"]
+        res = _res("TraceMachine", dict(seqcheck.FLAGS, QueueLimit=1000), fa)
         got = sorted({f for _, f in res["drift"]} | {f for _, f in res["viol"]})
         expect("corrupted field `after` in a recorded transition", got, ["after", "c01"])
         # (b) drop one transition event
@@ -95,7 +103,7 @@ def main():
         k = [i for i, l in enumerate(lines) if l.startswith('{"ev":"tx"')][3]
         fb = os.path.join(d, "b.ndjson")
         open(fb, "w").write("\n".join(lines[:k] + lines[k + 1:]) + "\n")
-        res = tlcrun.validate_traces("TraceMachine", dict(seqcheck.FLAGS, QueueLimit=1000), [fb])[0]["result"]
+        res = _res("TraceMachine", dict(seqcheck.FLAGS, QueueLimit=1000), fb)
         got = sorted({f for _, f in res["drift"]} | {f for _, f in res["viol"]})
         expect("dropped transition event", got, ["queue.nonempty", "result", "ret.active", "ret.time", "pre.active", "queue.head"])
         # (c) queue trace with one gate event removed
@@ -105,7 +113,7 @@ def main():
         k = [i for i, l in enumerate(lines) if '"point":"pq.casWon"' in l][0]
         fc = os.path.join(d, "c.ndjson")
         open(fc, "w").write("\n".join(lines[:k] + lines[k + 1:]) + "\n")
-        res = tlcrun.validate_traces("TraceQueue", dict(Callers="{1, 2}", MutsPer=1, NestCodes="{}", Recheck=True), [fc])[0]["result"]
+        res = _res("TraceQueue", dict(Callers="{1, 2}", MutsPer=1, NestCodes="{}", Recheck=True), fc)
         got = sorted({f for _, f in res["drift"]} | {f for _, f in res["viol"]})
         expect("dropped pq.casWon hook event", [g.split(":")[0] for g in got], ["gate"])
     finally:
